@@ -2520,7 +2520,22 @@ def lower_takewhile(repo, rebuild):
                         val = st.value if isinstance(st, (ast.Return, ast.Assign)) else None
                         if isinstance(st, ast.Assign) and not (len(st.targets) == 1 and isinstance(st.targets[0], ast.Name)):
                             continue
-                        if not (isinstance(val, ast.Call) and isinstance(val.func, ast.Name) and val.func.id == "list" and len(val.args) == 1 and not val.keywords):
+
+                        def is_list_tw(v):
+                            return isinstance(v, ast.Call) and isinstance(v.func, ast.Name) and v.func.id == "list" and len(v.args) == 1 and not v.keywords and \
+                                isinstance(v.args[0], ast.Call) and (dotted(v.args[0].func) or "").split(".")[-1] == "takewhile"
+                        if isinstance(val, ast.Call) and not is_list_tw(val) and len(val.args) == 1 and not val.keywords and is_list_tw(val.args[0]) and dotted(val.func) is not None:
+                            # C(list(takewhile(..))): the list is built first, then handed to C
+                            tmpn = "taken__tw%d" % (n + 1)
+                            if tmpn in used:
+                                continue
+                            hoist = ast.copy_location(ast.Assign(targets=[ast.Name(id=tmpn, ctx=ast.Store())], value=val.args[0]), st)
+                            val.args[0] = ast.copy_location(ast.Name(id=tmpn, ctx=ast.Load()), val)
+                            ast.fix_missing_locations(hoist)
+                            blk.insert(i - 1, hoist)
+                            used.add(tmpn)
+                            st, val = hoist, hoist.value
+                        if not is_list_tw(val):
                             continue
                         tw = val.args[0]
                         if not (isinstance(tw, ast.Call) and (dotted(tw.func) or "").split(".")[-1] == "takewhile" and len(tw.args) == 2 and not tw.keywords):
@@ -2528,9 +2543,24 @@ def lower_takewhile(repo, rebuild):
                         if (dotted(tw.func) or "") not in ("itertools.takewhile", "takewhile") or (dotted(tw.func) == "takewhile" and m.imports.get("takewhile") != "itertools.takewhile"):
                             continue
                         pred, gen = tw.args
-                        if not (isinstance(pred, ast.Name) and isinstance(gen, ast.GeneratorExp) and len(gen.generators) == 1 and not gen.generators[0].ifs
-                                and not gen.generators[0].is_async and _effect_free(gen.elt)):
+                        if isinstance(gen, ast.Call) and isinstance(gen.func, ast.Name) and gen.func.id == "map" and len(gen.args) == 2 and not gen.keywords and \
+                                dotted(gen.args[0]) is not None:
+                            # map(F, IT) is (F(v) for v in IT)
+                            mv_ = "mapped__tw%d" % (n + 1)
+                            gen = ast.GeneratorExp(elt=ast.Call(func=gen.args[0], args=[ast.Name(id=mv_, ctx=ast.Load())], keywords=[]),
+                                                   generators=[ast.comprehension(target=ast.Name(id=mv_, ctx=ast.Store()), iter=gen.args[1], ifs=[], is_async=0)])
+                        lam = None
+                        if isinstance(pred, ast.Lambda) and len(pred.args.args) == 1 and not (pred.args.posonlyargs or pred.args.kwonlyargs or pred.args.vararg or pred.args.kwarg
+                                                                                             or pred.args.defaults) and _effect_free(pred.body):
+                            lam = pred
+                        if not ((isinstance(pred, ast.Name) or lam is not None) and isinstance(gen, ast.GeneratorExp) and len(gen.generators) == 1 and not gen.generators[0].ifs
+                                and not gen.generators[0].is_async):
                             continue
+                        item = None
+                        if not _effect_free(gen.elt):
+                            item = "item__tw%d" % (n + 1)       # evaluated once per element, as the generator does
+                            if item in used:
+                                continue
                         g0 = gen.generators[0]
                         tnames = {x.id for x in ast.walk(g0.target) if isinstance(x, ast.Name)}
                         if tnames & (used - {x.id for x in ast.walk(gen) if isinstance(x, ast.Name)}):
@@ -2543,9 +2573,17 @@ def lower_takewhile(repo, rebuild):
                             if isinstance(x, ast.Name):
                                 x.ctx = ast.Store()
                         init = ast.Assign(targets=[ast.Name(id=acc, ctx=ast.Store())], value=ast.List(elts=[], ctx=ast.Load()))
-                        stop = ast.If(test=ast.UnaryOp(op=ast.Not(), operand=ast.Call(func=clone(pred), args=[clone(gen.elt)], keywords=[])), body=[ast.Break()], orelse=[])
-                        app = ast.Expr(value=ast.Call(func=ast.Attribute(value=ast.Name(id=acc, ctx=ast.Load()), attr="append", ctx=ast.Load()), args=[clone(gen.elt)], keywords=[]))
-                        loop = ast.For(target=tgt, iter=g0.iter, body=[stop, app], orelse=[], type_comment=None)
+                        elt = (lambda: ast.Name(id=item, ctx=ast.Load())) if item is not None else (lambda: clone(gen.elt))
+                        if lam is not None:
+                            cond = _SubstName({lam.args.args[0].arg: elt()}).visit(clone(lam.body))
+                        else:
+                            cond = ast.Call(func=clone(pred), args=[elt()], keywords=[])
+                        stop = ast.If(test=ast.UnaryOp(op=ast.Not(), operand=cond), body=[ast.Break()], orelse=[])
+                        app = ast.Expr(value=ast.Call(func=ast.Attribute(value=ast.Name(id=acc, ctx=ast.Load()), attr="append", ctx=ast.Load()), args=[elt()], keywords=[]))
+                        lbody = [stop, app]
+                        if item is not None:
+                            lbody.insert(0, ast.Assign(targets=[ast.Name(id=item, ctx=ast.Store())], value=gen.elt))
+                        loop = ast.For(target=tgt, iter=g0.iter, body=lbody, orelse=[], type_comment=None)
                         new = [init, loop]
                         if isinstance(st, ast.Return):
                             new.append(ast.Return(value=ast.Name(id=acc, ctx=ast.Load())))
@@ -3457,6 +3495,147 @@ def scalarize_value_objects(repo, known, rebuild):
     return len(changed)
 
 
+def _plain_record_class(node):
+    """-> (params, [(field, expr)], {method: (params, expr)}) for a class that is nothing but a record with small accessors:
+    no bases, `__init__` made of `self.f = E` only, every other method `return E`; else None."""
+    if node.bases or node.keywords or node.decorator_list:
+        return None
+    init, methods = None, {}
+    for st in node.body:
+        if isinstance(st, ast.Pass) or (isinstance(st, ast.Expr) and isinstance(st.value, ast.Constant)):
+            continue
+        if isinstance(st, ast.Assign) and len(st.targets) == 1 and isinstance(st.targets[0], ast.Name) and st.targets[0].id == "__slots__":
+            continue
+        if isinstance(st, ast.FunctionDef) and not st.decorator_list:
+            a = st.args
+            if a.vararg or a.kwarg or a.kwonlyargs or a.posonlyargs or a.defaults or not a.args:
+                return None
+            body = _docless(st.body)
+            if st.name == "__init__":
+                fields = []
+                for b in body:
+                    if isinstance(b, (ast.Assign, ast.AnnAssign)) and b.value is not None:
+                        t = b.targets[0] if isinstance(b, ast.Assign) and len(b.targets) == 1 else (b.target if isinstance(b, ast.AnnAssign) else None)
+                        if isinstance(t, ast.Attribute) and isinstance(t.value, ast.Name) and t.value.id == a.args[0].arg and \
+                                not any(isinstance(x, ast.Name) and x.id == a.args[0].arg for x in ast.walk(b.value)):
+                            fields.append((t.attr, b.value))
+                            continue
+                    return None
+                init = ([x.arg for x in a.args], fields)
+            elif st.name.startswith("__") and st.name.endswith("__"):
+                return None
+            else:
+                if not (len(body) == 1 and isinstance(body[0], ast.Return) and body[0].value is not None):
+                    return None
+                methods[st.name] = ([x.arg for x in a.args], body[0].value)
+            continue
+        return None
+    if init is None or len({f for f, _ in init[1]}) != len(init[1]):
+        return None
+    return init[0], init[1], methods
+
+
+def scalarize_plain_records(repo, known, rebuild):
+    """A local `obj = C(..)` of an unlisted record class (see `_plain_record_class`) that is used only through `obj.field` and
+    `obj.method(..)` is taken apart: one local per field (`obj__field`), the accessors' expressions put where they are called."""
+    changed = set()
+    for rel, m in repo.modules.items():
+        if not rel.startswith(("schemes/", "toolkit/", "frontend/", "data_persistence/")):
+            continue
+        recs = {}
+        for cn, ci in m.classes.items():
+            if ("%s::%s" % (rel, cn)) in known.get("class_attrs", {}):
+                continue
+            r = _plain_record_class(ci.node)
+            if r is not None:
+                recs[cn] = r
+        if not recs:
+            continue
+        n = 0
+        for f in [x for x in ast.walk(m.tree) if isinstance(x, _FUNC)]:
+            for i, st in enumerate(list(f.body)):
+                if not (isinstance(st, ast.Assign) and len(st.targets) == 1 and isinstance(st.targets[0], ast.Name) and isinstance(st.value, ast.Call)
+                        and isinstance(st.value.func, ast.Name) and st.value.func.id in recs and not st.value.keywords):
+                    continue
+                obj = st.targets[0].id
+                params, fields, methods = recs[st.value.func.id]
+                args = st.value.args
+                if len(args) != len(params) - 1 or not all(_simple(a) for a in args):
+                    continue
+                stores = [x for x in ast.walk(f) if isinstance(x, ast.Name) and x.id == obj and isinstance(x.ctx, (ast.Store, ast.Del))]
+                if len(stores) != 1 or any(isinstance(a, ast.arg) and a.arg == obj for a in ast.walk(f.args)):
+                    continue
+                parents = {}
+                for p_ in ast.walk(f):
+                    for ch in ast.iter_child_nodes(p_):
+                        parents[id(ch)] = p_
+                fnames = {fl for fl, _ in fields}
+                ok = True
+                for x in ast.walk(f):
+                    if isinstance(x, ast.Name) and x.id == obj and isinstance(x.ctx, ast.Load):
+                        par = parents.get(id(x))
+                        if not (isinstance(par, ast.Attribute) and par.value is x):
+                            ok = False
+                            break
+                        if par.attr in fnames:
+                            continue
+                        gp = parents.get(id(par))
+                        if par.attr in methods and isinstance(gp, ast.Call) and gp.func is par and not gp.keywords and \
+                                len(gp.args) == len(methods[par.attr][0]) - 1 and all(_simple(a) for a in gp.args):
+                            continue
+                        ok = False
+                        break
+                if not ok or any(isinstance(x, _FUNC + (ast.Lambda, ast.ClassDef)) and x is not f and any(isinstance(y, ast.Name) and y.id == obj for y in ast.walk(x)) for x in ast.walk(f)):
+                    continue
+                local = lambda fl: "%s__%s" % (obj, fl.lstrip("_"))  # noqa: E731
+                taken = {x.id for x in ast.walk(f) if isinstance(x, ast.Name)}
+                if any(local(fl) in taken for fl in fnames) or len({local(fl) for fl in fnames}) != len(fnames):
+                    continue
+
+                class T(ast.NodeTransformer):
+                    def visit_Call(self, node):
+                        if isinstance(node.func, ast.Attribute) and isinstance(node.func.value, ast.Name) and node.func.value.id == obj and node.func.attr in methods:
+                            mp, me = methods[node.func.attr]
+                            mapping = {p: self.visit(a) for p, a in zip(mp[1:], node.args)}
+                            e = _SubstName(mapping).visit(clone(me))
+                            e = _SelfFields(mp[0], local).visit(e)
+                            return ast.copy_location(e, node)
+                        self.generic_visit(node)
+                        return node
+
+                    def visit_Attribute(self, node):
+                        if isinstance(node.value, ast.Name) and node.value.id == obj and node.attr in fnames:
+                            return ast.copy_location(ast.Name(id=local(node.attr), ctx=node.ctx), node)
+                        self.generic_visit(node)
+                        return node
+                inits = []
+                mapping = dict(zip(params[1:], args))
+                for fl, e in fields:
+                    a_ = ast.Assign(targets=[ast.Name(id=local(fl), ctx=ast.Store())], value=_SubstName(mapping).visit(clone(e)))
+                    inits.append(ast.copy_location(a_, st))
+                rest = [T().visit(x) for x in f.body[i + 1:]]
+                f.body[i:] = inits + rest
+                n += 1
+                break
+        if n:
+            ast.fix_missing_locations(m.tree)
+            changed.add(rel)
+    if changed:
+        rebuild(repo, changed)
+    return len(changed)
+
+
+class _SelfFields(ast.NodeTransformer):
+    def __init__(self, selfname, local):
+        self.s, self.local = selfname, local
+
+    def visit_Attribute(self, node):
+        if isinstance(node.value, ast.Name) and node.value.id == self.s:
+            return ast.copy_location(ast.Name(id=self.local(node.attr), ctx=node.ctx), node)
+        self.generic_visit(node)
+        return node
+
+
 def _constants_only_class(node):
     if node.bases or node.keywords or node.decorator_list:
         return False
@@ -3630,6 +3809,8 @@ def normalize(repo, rebuild):
             rebuild(repo, dropped)
     if scalarize_value_objects(repo, known, rebuild):
         notes.append("local value object(s) of an unlisted NamedTuple class taken apart into one local per field")
+    if scalarize_plain_records(repo, known, rebuild):
+        notes.append("local object(s) of an unlisted record class (fields set in __init__, accessors returning one expression) taken apart into one local per field")
     coalesce_inlined_copies(repo, rebuild)
     if tail_duplication(repo, rebuild):
         notes.append("common tail of an if / elif chain whose branches select constants for it moved back into the branches")
